@@ -93,6 +93,22 @@ def run(ctx):
             if other[f] != fresh[False][f]:
                 ctx.violation(dict(kind='result-depends-on-hash-seed', file=os.path.basename(f), digest_seed_0=fresh[False][f], digest_seed_20261001=other[f],
                                    how='PYTHONHASHSEED=0 python -m tools.digest lenient <file>  vs  PYTHONHASHSEED=20261001 python -m tools.digest lenient <file>')); break
+        # the same PARSER OBJECT asked twice: the second answer is the first one (nothing is replayed into state the first call left behind)
+        from replay_parser import ReplayParser as RP1
+        for f in [x for x in pool if os.path.basename(x).startswith(('w-', 'wot-', 'wowp-'))][:4] + pool[-4:-2]:
+            try:
+                rp = RP1(f, strict=False); a1 = digest.canon(rp.get_info()); a2 = digest.canon(rp.get_info())
+            except Exception: continue
+            ctx.case(('same-parser-twice', os.path.basename(f))); ctx.count('call:same-parser-twice')
+            if a1 != a2:
+                ctx.violation(dict(kind='second-get_info-differs', file=os.path.basename(f), how='p = ReplayParser(file); p.get_info() twice: the two results must be equal (tools.digest.canon)')); break
+        # ... and the log level: a parse under debug logging (every record formatted) equals the fresh-process result
+        for f in [x for x in pool if os.path.basename(x).startswith('w-')][:2] + [x for x in pool if x.endswith('.wotreplay')][:1]:
+            with common.debug_logging(): dl = digest.digest_of(f, False)
+            ctx.case(('debug-logging', os.path.basename(f))); ctx.count('call:under-debug-logging')
+            if dl != fresh[False][f]:
+                ctx.violation(dict(kind='result-depends-on-log-level', file=os.path.basename(f), digest_debug_logging=dl, digest_fresh_process=fresh[False][f],
+                                   how='tools.digest.digest_of(file, False) inside tools.common.debug_logging() vs `python -m tools.digest lenient <file>`')); break
         ncalls = 120 if q else 2500
         bad = None; seq = []
         for i in range(ncalls):
